@@ -72,7 +72,7 @@ pub fn build_all3<F: BoolExt>(s: &mut Session<F>, reversed_route: bool) -> Optio
     };
     for (tt, f) in fs.iter().enumerate() {
         let obs = tt_of(f, n);
-        let want: Vec<u32> = (0..8).filter(|a| (tt >> a) & 1 == 1).collect();
+        let want: Vec<i64> = (0..8).filter(|a| (tt >> a) & 1 == 1).collect();
         if obs != want {
             s.out
                 .emit(json!({"ev":"construct_mismatch","tt":tt,"eval":obs}));
@@ -91,6 +91,8 @@ pub fn tables<F: BoolExt>(args: &Args) {
     let mut rng = Rng::new(seed);
     let mut out = TraceOut::new(&dir, &format!("tables-{}", F::KIND), 4000);
     let sample_every = args.num("sample", if thorough { 97 } else { 211 }) as usize;
+    let groups = args.get("groups", "bool,quant,zbdd");
+    let grp = |g: &str| groups.split(',').any(|x| x == g);
 
     let orders = permutations(3);
     let order_sel: Vec<usize> = if thorough {
@@ -124,7 +126,10 @@ pub fn tables<F: BoolExt>(args: &Args) {
     for (oi, &osel) in order_sel.iter().enumerate() {
         for &threads in &threads_opts {
             for reorder_after in [false, true] {
-                if !thorough && reorder_after != (oi % 2 == 1) {
+                if !thorough && reorder_after != (oi % 2 == 1) && F::REORDER_LIVE_OK {
+                    continue;
+                }
+                if reorder_after && !F::REORDER_LIVE_OK {
                     continue;
                 }
                 let cache = [1usize, 2, 16, 4096][rng.below(4)];
@@ -164,6 +169,7 @@ pub fn tables<F: BoolExt>(args: &Args) {
                     }};
                 }
 
+                if grp("bool") {
                 // constants, variables
                 row!("f", &[], json!({}), misc["f"].as_u64().unwrap() as usize, Ok(s
                     .mref
@@ -236,8 +242,9 @@ pub fn tables<F: BoolExt>(args: &Args) {
                         }
                     }
                 }
+                }
                 let cube_tt = |c: usize| misc["cube"][c].as_u64().unwrap() as usize;
-                if F::HAS_QUANT {
+                if F::HAS_QUANT && grp("quant") {
                     // quantifiers: variable set = positive cube
                     let pos_cube = |mask: usize| -> usize {
                         // cube code with digit 1 for members of mask
@@ -283,7 +290,7 @@ pub fn tables<F: BoolExt>(args: &Args) {
                     }
                 }
                 // restrict by every literal cube
-                for c in 0..27usize {
+                for c in 0..(if grp("quant") { 27usize } else { 0 }) {
                     let cs = h[cube_tt(c)];
                     for f in 0..256usize {
                         let exp = t2(&restrict, c, f);
@@ -292,7 +299,7 @@ pub fn tables<F: BoolExt>(args: &Args) {
                             .restrict(s.get(cs)));
                     }
                 }
-                if F::HAS_ZOPS {
+                if F::HAS_ZOPS && grp("zbdd") {
                     for (op, tab) in &zbin {
                         for f in 0..256usize {
                             for g in 0..256usize {
@@ -325,7 +332,7 @@ pub fn tables<F: BoolExt>(args: &Args) {
                     row!("base", &[], json!({}), 1, F::zconst(&s.mref, "base", 0));
                 }
                 // cofactors (V): w.r.t. the top-most variable of the current order
-                for f in (0..256usize).step_by(if thorough { 1 } else { 3 }) {
+                for f in (0..(if grp("bool") { 256usize } else { 0 })).step_by(if thorough { 1 } else { 3 }) {
                     cofactors_of(&mut s, h[f]);
                 }
                 s.out
@@ -550,7 +557,7 @@ pub fn hist<F: BoolExt>(args: &Args) {
                     s.add_vars(1);
                     s.snap();
                 }
-            } else if c < 98 {
+            } else if c < 98 && F::REORDER_LIVE_OK {
                 // random partial order request
                 let mut p = rng.perm(s.n as usize);
                 let keep = 1 + rng.below(s.n as usize);
@@ -579,6 +586,201 @@ pub fn hist<F: BoolExt>(args: &Args) {
     }
     out.finish();
     write_summary(&dir, &format!("hist-{}", F::KIND), &out, json!({"ops":ops_done}));
+}
+
+/// all ordered subsets (sequences without repetition) of 0..n
+pub fn ordered_subsets(n: usize) -> Vec<Vec<u32>> {
+    fn rec(cur: &mut Vec<u32>, n: usize, out: &mut Vec<Vec<u32>>) {
+        out.push(cur.clone());
+        for i in 0..n as u32 {
+            if !cur.contains(&i) {
+                cur.push(i);
+                rec(cur, n, out);
+                cur.pop();
+            }
+        }
+    }
+    let mut out = Vec::new();
+    rec(&mut Vec::new(), n, &mut out);
+    out
+}
+
+/// `count` random functions built by logged operations over the variables
+pub fn random_funcs<F: BoolExt>(s: &mut Session<F>, rng: &mut Rng, count: usize) {
+    for v in 0..s.n {
+        s.var(v);
+    }
+    for _ in 0..count {
+        let live = s.live();
+        let a = live[rng.below(live.len())];
+        let b = live[rng.below(live.len())];
+        match rng.below(10) {
+            0 => {
+                s.not(a);
+            }
+            1 => {
+                let c = live[rng.below(live.len())];
+                s.ite(a, b, c);
+            }
+            _ => {
+                s.bin(BIN_OPS[rng.below(8)], a, b);
+            }
+        }
+        if s.dead {
+            return;
+        }
+    }
+}
+
+/// after a reordering: the diagram must behave like a freshly built one
+fn post_reorder_activity<F: BoolExt>(s: &mut Session<F>, rng: &mut Rng, ops: usize) {
+    s.snap();
+    s.obs();
+    for _ in 0..ops {
+        let live = s.live();
+        if live.len() < 2 || s.dead {
+            break;
+        }
+        let a = live[rng.below(live.len())];
+        let b = live[rng.below(live.len())];
+        if let Some(x) = s.bin(BIN_OPS[rng.below(8)], a, b) {
+            if rng.chance(1, 2) {
+                s.drop_h(x);
+            }
+        }
+    }
+    s.snap();
+    s.gc();
+    s.snap();
+}
+
+/// Reordering of managers that hold no function yet (for ZBDDs only the
+/// manager's own tautology chain, which is dropped and rebuilt); functions
+/// are built afterwards.  One history with live functions comes last and is
+/// tagged so that the known finding is attributed to exactly this case.
+fn reorder_empty<F: BoolExt>(out: &mut TraceOut, rng: &mut Rng, thorough: bool, cases: &mut u64) {
+    for n in 3..=(if thorough { 5usize } else { 4 }) {
+        let perms = permutations(n);
+        let reqs = ordered_subsets(n);
+        let total = perms.len() * reqs.len();
+        let take = if thorough { total.min(2500) } else { 120 };
+        for c in 0..take {
+            let k = if take == total { c } else { rng.below(total) };
+            let (src, req) = (&perms[k / reqs.len()], &reqs[k % reqs.len()]);
+            let mut s: Session<F> = Session::new(out, 4096, 64, [1u32, 2][rng.below(2)]);
+            s.add_vars(n as u32);
+            s.reorder(src);
+            s.snap();
+            s.reorder(req);
+            *cases += 1;
+            s.snap();
+            if n == 3 && c % 8 == 0 {
+                if build_all3(&mut s, c % 16 == 0).is_some() {
+                    s.obs();
+                    s.snap();
+                }
+            } else {
+                random_funcs(&mut s, rng, 8);
+                post_reorder_activity(&mut s, rng, 3);
+            }
+        }
+    }
+    let mut s: Session<F> = Session::new_tagged(out, 4096, 64, 1, "live-reorder");
+    s.add_vars(3);
+    if build_all3(&mut s, false).is_some() {
+        s.snap();
+        s.reorder(&[0, 2, 1]);
+        *cases += 1;
+        s.snap();
+    }
+}
+
+/// C08: set_var_order for all (source order, request) pairs
+pub fn reorder<F: BoolExt>(args: &Args) {
+    let dir = args.get("out", "/verif/out/tmp");
+    let seed = args.num("seed", 1);
+    let thorough = args.get("tier", "quick") == "thorough";
+    let mut rng = Rng::new(seed ^ 0x0808);
+    let mut out = TraceOut::new(&dir, &format!("reorder-{}", F::KIND), 1200);
+    let mut cases = 0u64;
+
+    if !F::REORDER_LIVE_OK {
+        reorder_empty::<F>(&mut out, &mut rng, thorough, &mut cases);
+        out.finish();
+        write_summary(&dir, &format!("reorder-{}", F::KIND), &out, json!({"rows":cases,"nontrivial":cases}));
+        return;
+    }
+    // n = 3: every function alive
+    let perms3 = permutations(3);
+    let reqs3 = ordered_subsets(3);
+    let srcs: Vec<usize> = if thorough {
+        (0..6).collect()
+    } else {
+        let a = rng.below(6);
+        vec![a, (a + 1 + rng.below(5)) % 6]
+    };
+    for &si in &srcs {
+        for req in &reqs3 {
+            if !thorough && req.len() < 2 && rng.chance(1, 2) {
+                continue;
+            }
+            let threads = [1u32, 2, 4][rng.below(3)];
+            let mut s: Session<F> = Session::new(&mut out, 4096, [1usize, 16, 1024][rng.below(3)], threads);
+            s.add_vars(3);
+            s.reorder(&perms3[si]);
+            let Some(_h) = build_all3(&mut s, rng.chance(1, 2)) else { continue };
+            s.snap();
+            s.reorder(req);
+            cases += 1;
+            post_reorder_activity(&mut s, &mut rng, 6);
+        }
+    }
+    // n = 4 (all sources x all requests in thorough, a sample in quick) and
+    // n = 5..8 random, with random live functions; chains of reorderings
+    let perms4 = permutations(4);
+    let reqs4 = ordered_subsets(4);
+    let n4_cases = if thorough { perms4.len() * reqs4.len() } else { 60 };
+    for c in 0..n4_cases {
+        let (src, req) = if thorough {
+            (&perms4[c / reqs4.len()], &reqs4[c % reqs4.len()])
+        } else {
+            (&perms4[rng.below(24)], &reqs4[rng.below(reqs4.len())])
+        };
+        let mut s: Session<F> = Session::new(&mut out, 4096, 64, [1u32, 3][rng.below(2)]);
+        s.add_vars(4);
+        if rng.chance(1, 2) {
+            s.reorder(src);
+            random_funcs(&mut s, &mut rng, 14);
+        } else {
+            random_funcs(&mut s, &mut rng, 14);
+            s.reorder(src);
+        }
+        s.snap();
+        s.reorder(req);
+        cases += 1;
+        post_reorder_activity(&mut s, &mut rng, 4);
+    }
+    let chains = if thorough { 300 } else { 40 };
+    for _ in 0..chains {
+        let n = 5 + rng.below(if thorough { 4 } else { 2 }) as u32;
+        let mut s: Session<F> = Session::new(&mut out, 8192, 256, [1u32, 2, 8][rng.below(3)]);
+        s.add_vars(n);
+        random_funcs(&mut s, &mut rng, 12);
+        let len = 2 + rng.below(4);
+        for _ in 0..len {
+            if s.dead {
+                break;
+            }
+            let mut p = rng.perm(n as usize);
+            p.truncate(1 + rng.below(n as usize));
+            s.snap();
+            s.reorder(&p);
+            cases += 1;
+            post_reorder_activity(&mut s, &mut rng, 3);
+        }
+    }
+    out.finish();
+    write_summary(&dir, &format!("reorder-{}", F::KIND), &out, json!({"rows":cases,"nontrivial":cases}));
 }
 
 #[allow(dead_code)]
